@@ -34,6 +34,7 @@ var hookPoints = []string{
 type liveSub struct {
 	tag   string
 	cells []string
+	cost  bool
 }
 
 type history struct {
@@ -116,10 +117,12 @@ func genHistory(r *rand.Rand, g *wsclient.Gen, seed int64) *history {
 		sort.Strings(ks)
 		return ks
 	}
+	forceCost := false
 	sub := func(wait bool) wsclient.Step {
 		seq++
 		tag := fmt.Sprintf("t%d", seq)
-		q, cells := g.GenQuery(tag, wsclient.QueryOpts{Slow: true, Boom: r.Intn(4) == 0})
+		cost := forceCost || r.Intn(4) == 0
+		q, cells := g.GenQuery(tag, wsclient.QueryOpts{Slow: !forceCost, Boom: !forceCost && r.Intn(4) == 0, Cost: cost})
 		var free []string
 		for _, id := range ids {
 			if live[id] == nil {
@@ -127,7 +130,7 @@ func genHistory(r *rand.Rand, g *wsclient.Gen, seed int64) *history {
 			}
 		}
 		id := free[r.Intn(len(free))]
-		live[id] = &liveSub{tag: tag, cells: cells}
+		live[id] = &liveSub{tag: tag, cells: cells, cost: cost}
 		return wsclient.Step{Kind: "sub", ID: id, Tag: tag, Query: q, Wait: wait, PauseUS: pause(r)}
 	}
 	n := 14 + r.Intn(26)
@@ -168,7 +171,20 @@ func genHistory(r *rand.Rand, g *wsclient.Gen, seed int64) *history {
 				h.Steps = append(h.Steps, wsclient.Step{Kind: "unsub", ID: id})
 			}
 			h.Steps = append(h.Steps, wsclient.Step{Kind: "sync", PauseUS: 2 * d})
-		case x >= 31 && x < 35: // an object with an Expensive field leaves the result, changes, comes back, changes again
+		case x >= 31 && x < 36: // an object with an Expensive field leaves the result, changes, comes back, changes again
+			have := false
+			for _, ls := range live {
+				have = have || ls.cost
+			}
+			if !have {
+				if len(live) >= 4 {
+					continue
+				}
+				forceCost = true
+				h.Steps = append(h.Steps, sub(true))
+				forceCost = false
+			}
+			h.Steps = append(h.Steps, wsclient.Step{Kind: "idle"})
 			ops, _ := g.LeaveReturn()
 			for _, op := range ops {
 				// long enough for the re-run and for the old computation's asynchronous release
